@@ -269,6 +269,18 @@ impl<'a> RleDecoder<'a> {
 pub struct DecoderV2<'a> {
     pub cursor: Cursor<'a>,
     pub ds_curr_val: u32,
+    pub string_decoder: StringDecoder<'a>,
+}
+
+/// OPAQUE stand-in for `StringDecoder` (str slicing / `chars()` / unsafe from_utf8_unchecked are not ingestible): `read_str`
+/// is a trusted stand-in WITHOUT a functional contract — all that is used is that it cannot touch the decoder's cursor
+#[verifier::external_body] pub struct StringDecoder<'a> { opaque: &'a str }
+
+impl<'a> StringDecoder<'a> {
+    #[verifier::external_body] pub fn read_str(&mut self) -> (res: Result<&'a str, Error>)
+    {
+        unimplemented!()
+    }
 }
 
 /// the bytes from position `i` on (nothing if `i` is beyond the end)
@@ -483,5 +495,54 @@ impl<'a> DecoderV2<'a> {
             lemma_dec_u32_bounded(self.cursor.rest());
             if dec_u32(self.cursor.rest()) is Some { lemma_suffix_skip(self.cursor.rest(), dec_u32(self.cursor.rest())->Some_0.1); }
         }
+    @*/
+}
+
+// ---------------------------------------------------------------------------------------------
+// the decoder back ends as implementations of `Read`: rest() := the cursor's unread bytes.  The impl bodies are checked
+// against the TRAIT contracts of lib0_common (an impl that reads differently from what `Read` promises is rejected).
+// ---------------------------------------------------------------------------------------------
+// field visibility only (the spec functions of the trait impl mention the field)
+/*@extract yrs/src/updates/decoder.rs | - | struct DecoderV1 | rules=SUB(from=cursor: Cursor<'a>;;to=pub cursor: Cursor<'a>) @*/
+
+impl<'a> Read for DecoderV1<'a> {
+    open spec fn rest(&self) -> Seq<u8> {
+        self.cursor.rest()
+    }
+
+    open spec fn wf(&self) -> bool {
+        self.cursor.wf()
+    }
+
+    /*@extract yrs/src/updates/decoder.rs | impl<'a> Read for DecoderV1<'a> | fn read_u8 | label=v1_dec_read_u8 @*/
+
+    /*@extract yrs/src/updates/decoder.rs | impl<'a> Read for DecoderV1<'a> | fn read_exact | label=v1_dec_read_exact @*/
+}
+
+impl<'a> Read for DecoderV2<'a> {
+    open spec fn rest(&self) -> Seq<u8> {
+        self.cursor.rest()
+    }
+
+    open spec fn wf(&self) -> bool {
+        self.cursor.wf()
+    }
+
+    /*@extract yrs/src/updates/decoder.rs | impl<'a> Read for DecoderV2<'a> | fn read_exact | label=v2_dec_read_exact @*/
+
+    /*@extract yrs/src/updates/decoder.rs | impl<'a> Read for DecoderV2<'a> | fn read_u8 | label=v2_dec_read_u8 @*/
+}
+
+impl<'a> DecoderV2<'a> {
+    // `read_string` is overridden by DecoderV2 to read from the STRING COLUMN, not from rest(): it does not satisfy the contract
+    // of the default `Read::read_string` (read_buf on rest()), i.e. the trait has to be read as allowing an override that reads
+    // elsewhere.  Its own honest contract: the rest section and the delete-set register are untouched.  (Pulled from the
+    // `impl Read for DecoderV2` block into an inherent impl: the sliced `Read` of lib0_common has no `read_string`.)
+    /*@extract yrs/src/updates/decoder.rs | impl<'a> Read for DecoderV2<'a> | fn read_string | label=v2_dec_read_string
+    @ret res
+    @sig
+        ensures
+            final(self).cursor == old(self).cursor,
+            final(self).ds_curr_val == old(self).ds_curr_val,
     @*/
 }
